@@ -6,6 +6,7 @@ import EtkVerif.Driver.SmtCmd
 import EtkVerif.Driver.CfgCmd
 import EtkVerif.Driver.AsmCmd
 import EtkVerif.Driver.FsCmd
+import EtkVerif.Driver.LstCmd
 open EtkVerif.Driver
 
 def dispatch (line : String) : String :=
@@ -22,6 +23,7 @@ def dispatch (line : String) : String :=
     else if cmd == "asm" then cmdAsm args
     else if cmd == "asmspec" then cmdAsmSpec args
     else if cmd == "asmfs" then cmdAsmFs args
+    else if cmd == "lst" then cmdLst args
     else s!"bad-op {cmd}"
   | [] => "bad-op"
 
